@@ -126,10 +126,8 @@ def split_tuple_assignments(tree):
     return n
 
 
-def normalise(tree):
-    """in place; returns the number of temporaries inlined (private helpers are inlined and tuple assignments split first)"""
-    total = inline_helpers(tree)
-    ast.fix_missing_locations(tree)
+def _temps_and_tuples(tree):
+    total = 0
     # temporaries first: `t1 = e1; t2 = e2; a, b = t1, t2` must become `a, b = e1, e2` before deciding whether that assignment splits
     for _round in range(2):
         for x in ast.walk(tree):
@@ -140,6 +138,451 @@ def normalise(tree):
                 break
             ast.fix_missing_locations(tree)
     return total
+
+
+def normalise(tree):
+    """in place; returns the number of rewrites.  Order: temporaries and tuple assignments, append loops, private helpers
+    (whose bodies are then already in normal form), and temporaries / tuples once more for what the inlining exposed"""
+    total = partials_to_defs(tree) + split_on_shared_predicates(tree)
+    ast.fix_missing_locations(tree)
+    total += _temps_and_tuples(tree)
+    n = append_loops_to_comprehensions(tree) + fuse_comprehensions(tree)
+    ast.fix_missing_locations(tree)
+    n += inline_helpers(tree)
+    ast.fix_missing_locations(tree)
+    while n:
+        total += n + fold_constants(tree) + _temps_and_tuples(tree)
+        n = append_loops_to_comprehensions(tree) + fuse_comprehensions(tree)
+        ast.fix_missing_locations(tree)
+    return total
+
+
+def partials_to_defs(tree):
+    """`g = partial(f, k=e)` with f a function of this module  ->  `def g(<the parameters left>): return f(<them>, k=e)`: the closure the
+    partial stands for, so that analyses of callbacks (loop conditions, bodies) see a function.  Only when every bound expression is
+    made of names that are bound once (a partial evaluates them when it is created, the closure when it is called)."""
+    module_fns = {st.name: st for st in tree.body if isinstance(st, ast.FunctionDef)}
+    n = 0
+    for fn in [x for x in ast.walk(tree) if isinstance(x, (ast.FunctionDef, ast.AsyncFunctionDef))]:
+        stores = {}
+        for x in ast.walk(fn):
+            if isinstance(x, ast.Name) and isinstance(x.ctx, ast.Store):
+                stores[x.id] = stores.get(x.id, 0) + 1
+            elif isinstance(x, ast.arg):
+                stores[x.arg] = stores.get(x.arg, 0) + 1
+            elif isinstance(x, ast.AugAssign) and isinstance(x.target, ast.Name):
+                stores[x.target.id] = stores.get(x.target.id, 0) + 1
+        for i, st in enumerate(fn.body):
+            if not (isinstance(st, ast.Assign) and len(st.targets) == 1 and isinstance(st.targets[0], ast.Name) and isinstance(st.value, ast.Call)):
+                continue
+            c = st.value
+            fname = c.func.id if isinstance(c.func, ast.Name) else (c.func.attr if isinstance(c.func, ast.Attribute) and isinstance(c.func.value, ast.Name) and c.func.value.id == "functools" else None)
+            if fname != "partial" or not c.args or not isinstance(c.args[0], ast.Name) or c.args[0].id not in module_fns:
+                continue
+            target = module_fns[c.args[0].id]
+            a = target.args
+            if a.vararg or a.kwarg or a.posonlyargs or target.decorator_list or any(isinstance(x, ast.Starred) for x in c.args) or any(k.arg is None for k in c.keywords):
+                continue
+            if stores.get(st.targets[0].id) != 1 or stores.get(c.args[0].id):
+                continue
+            params = [p.arg for p in a.args]
+            bound = dict(zip(params, c.args[1:]))
+            if len(c.args) - 1 > len(params) or any(k.arg in bound or k.arg not in params + [p.arg for p in a.kwonlyargs] for k in c.keywords):
+                continue
+            bound.update({k.arg: k.value for k in c.keywords})
+            if any(stores.get(x.id, 0) > 1 for e in bound.values() for x in ast.walk(e) if isinstance(x, ast.Name)):
+                continue
+            if any(isinstance(x, (ast.Call, ast.Lambda, ast.Yield, ast.Await)) for e in bound.values() for x in ast.walk(e)):
+                continue
+            n_def = len(a.defaults)
+            required = params[:len(params) - n_def] if n_def else params
+            left = [p for p in required if p not in bound]
+            if any(p in bound for p in params[:len(left)]) and False:
+                continue
+            call = ast.Call(func=ast.Name(id=target.name, ctx=ast.Load()), args=[], keywords=[ast.keyword(arg=p, value=ast.Name(id=p, ctx=ast.Load())) for p in left]
+                            + [ast.keyword(arg=k, value=_copy(v)) for k, v in bound.items()])
+            new = ast.FunctionDef(name=st.targets[0].id, args=ast.arguments(posonlyargs=[], args=[ast.arg(arg=p) for p in left], vararg=None, kwonlyargs=[], kw_defaults=[], kwarg=None, defaults=[]),
+                                  body=[ast.Return(value=call)], decorator_list=[], returns=None, type_comment=None, type_params=[])
+            ast.copy_location(new, st)
+            ast.fix_missing_locations(new)
+            fn.body[i] = new
+            n += 1
+    return n
+
+
+class _Fold(ast.NodeTransformer):
+    """conditionals on literal constants (what inlining a helper called with `flag=True` leaves behind) are resolved"""
+    def __init__(self):
+        self.n = 0
+
+    def visit_UnaryOp(self, node):
+        self.generic_visit(node)
+        if isinstance(node.op, ast.Not) and isinstance(node.operand, ast.Constant) and isinstance(node.operand.value, bool):
+            self.n += 1
+            return ast.copy_location(ast.Constant(value=not node.operand.value), node)
+        return node
+
+    def visit_IfExp(self, node):
+        self.generic_visit(node)
+        if isinstance(node.test, ast.Constant) and isinstance(node.test.value, (bool, type(None))):
+            self.n += 1
+            return node.body if node.test.value else node.orelse
+        return node
+
+    def _block(self, blk):
+        out = []
+        for st in blk:
+            r = self.visit(st)
+            if isinstance(r, ast.If) and isinstance(r.test, ast.Constant) and isinstance(r.test.value, (bool, type(None))):
+                self.n += 1
+                out += r.body if r.test.value else r.orelse
+            elif r is not None:
+                out.append(r)
+        return out or [ast.copy_location(ast.Pass(), blk[0])] if blk else out
+
+    def generic_visit(self, node):
+        for f in ("body", "orelse", "finalbody"):
+            b = getattr(node, f, None)
+            if isinstance(b, list) and b and isinstance(b[0], ast.stmt):
+                setattr(node, f, self._block(b))
+        for f, v in ast.iter_fields(node):
+            if f in ("body", "orelse", "finalbody") and isinstance(v, list) and v and isinstance(v[0], ast.stmt):
+                continue
+            if isinstance(v, list):
+                new = []
+                for x in v:
+                    if isinstance(x, ast.AST):
+                        x = self.visit(x)
+                        if x is None:
+                            continue
+                    new.append(x)
+                v[:] = new
+            elif isinstance(v, ast.AST):
+                r = self.visit(v)
+                if r is None:
+                    delattr(node, f)
+                else:
+                    setattr(node, f, r)
+        return node
+
+
+def fold_constants(tree):
+    f = _Fold()
+    f.visit(tree)
+    if f.n:
+        ast.fix_missing_locations(tree)
+    return f.n
+
+
+def split_on_shared_predicates(tree):
+    """a flag that is assigned once and then tested in two or more places (`wide = m < n; B = X if wide else Y; ...; return (a, b) if wide
+    else (b, a)`) correlates those places.  The rest of the function after the first test is duplicated under one `if flag: ... else:
+    ...` with every test of the flag folded, so that each branch is the straight-line code of one case -- the layout the same logic
+    has when it is written as a single if/else."""
+    n = 0
+    for fn in [x for x in ast.walk(tree) if isinstance(x, (ast.FunctionDef, ast.AsyncFunctionDef))]:
+        for _ in range(3):
+            if not _split_one_predicate(fn):
+                break
+            n += 1
+    return n
+
+
+def _test_polarity(test, name):
+    if isinstance(test, ast.Name) and test.id == name:
+        return True
+    if isinstance(test, ast.UnaryOp) and isinstance(test.op, ast.Not) and isinstance(test.operand, ast.Name) and test.operand.id == name:
+        return False
+    return None
+
+
+def _split_one_predicate(fn):
+    stores = {}
+    for x in ast.walk(fn):
+        if isinstance(x, ast.Name) and isinstance(x.ctx, ast.Store):
+            stores[x.id] = stores.get(x.id, 0) + 1
+        elif isinstance(x, ast.arg):
+            stores[x.arg] = stores.get(x.arg, 0) + 2
+        elif isinstance(x, ast.AugAssign) and isinstance(x.target, ast.Name):
+            stores[x.target.id] = stores.get(x.target.id, 0) + 2
+    for i, st in enumerate(fn.body):
+        if not (isinstance(st, ast.Assign) and len(st.targets) == 1 and isinstance(st.targets[0], ast.Name) and stores.get(st.targets[0].id) == 1):
+            continue
+        p = st.targets[0].id
+        rest = fn.body[i + 1:]
+        tests = [x for s in rest for x in ast.walk(s) if isinstance(x, (ast.If, ast.IfExp)) and _test_polarity(x.test, p) is not None]
+        if len(tests) < 2 or not any(isinstance(x, ast.IfExp) for x in tests):
+            continue
+        if any(isinstance(x, (ast.FunctionDef, ast.AsyncFunctionDef, ast.ClassDef, ast.Lambda, ast.Global, ast.Nonlocal, ast.Yield, ast.YieldFrom)) for s in rest for x in ast.walk(s)):
+            continue
+        first = next(j for j, s in enumerate(rest) if any(isinstance(x, (ast.If, ast.IfExp)) and _test_polarity(x.test, p) is not None for x in ast.walk(s)))
+        tail = rest[first:]
+        if sum(len(list(ast.walk(s))) for s in tail) > 1500:
+            continue
+        branches = []
+        for value in (True, False):
+            class F(ast.NodeTransformer):
+                def visit_IfExp(self, node):
+                    pol = _test_polarity(node.test, p)
+                    if pol is None:
+                        return self.generic_visit(node)
+                    return self.visit(node.body if pol == value else node.orelse)
+
+                def visit_If(self, node):
+                    pol = _test_polarity(node.test, p)
+                    if pol is None:
+                        return self.generic_visit(node)
+                    out = []
+                    for s in (node.body if pol == value else node.orelse):
+                        r = self.visit(s)
+                        out += r if isinstance(r, list) else [r]
+                    return out or [ast.copy_location(ast.Pass(), node)]
+            blk = []
+            for s in tail:
+                r = F().visit(_copy(s))
+                blk += r if isinstance(r, list) else [r]
+                if isinstance(blk[-1], (ast.Return, ast.Raise)):
+                    break  # what follows a folded early return belongs to the other case only
+            branches.append(blk)
+        new = ast.If(test=ast.Name(id=p, ctx=ast.Load()), body=branches[0], orelse=branches[1])
+        ast.copy_location(new, tail[0])
+        ast.copy_location(new.test, tail[0])
+        fn.body[i + 1 + first:] = [new]
+        ast.fix_missing_locations(fn)
+        return True
+    return False
+
+
+def append_loops_to_comprehensions(tree):
+    """`xs = []; for t in it: a = f(t); xs.append(g(a))` -> `xs = [g(f(t)) for t in it]` when the loop does nothing else: its body
+    is only single assignments to names that live inside the loop and one unconditional append per list, the lists start empty in
+    the same block and are not read in between or inside the loop.  (The iterable and the loop-local expressions may be duplicated:
+    the analyses treat library expressions as pure.)"""
+    n = 0
+    for fn in [x for x in ast.walk(tree) if isinstance(x, (ast.FunctionDef, ast.AsyncFunctionDef))]:
+        loads, stores = {}, {}
+        for x in ast.walk(fn):
+            if isinstance(x, ast.Name):
+                (loads if isinstance(x.ctx, ast.Load) else stores).setdefault(x.id, []).append(x)
+            elif isinstance(x, ast.arg):
+                stores.setdefault(x.arg, []).extend([x, x])
+        for node in ast.walk(fn):
+            for f in ("body", "orelse", "finalbody"):
+                blk = getattr(node, f, None)
+                if not (isinstance(blk, list) and blk and isinstance(blk[0], ast.stmt)):
+                    continue
+                j = 0
+                while j < len(blk):
+                    new = _loop_as_comprehensions(blk, j, loads, stores)
+                    if new is None:
+                        j += 1
+                        continue
+                    inits, stmts = new
+                    blk[j:j + 1] = stmts
+                    for st in inits:
+                        blk.remove(st)
+                    n += 1
+                    j = 0
+    return n
+
+
+def _collector_op(st):
+    """('append', list name, element) / ('setitem', dict name, key, value) for `xs.append(e)` / `d[k] = v` statements"""
+    if (isinstance(st, ast.Expr) and isinstance(st.value, ast.Call) and isinstance(st.value.func, ast.Attribute) and st.value.func.attr == "append"
+            and isinstance(st.value.func.value, ast.Name) and len(st.value.args) == 1 and not st.value.keywords and not isinstance(st.value.args[0], ast.Starred)):
+        return ("append", st.value.func.value.id, st.value.args[0])
+    if (isinstance(st, ast.Assign) and len(st.targets) == 1 and isinstance(st.targets[0], ast.Subscript) and isinstance(st.targets[0].value, ast.Name)
+            and not isinstance(st.targets[0].slice, (ast.Slice, ast.Tuple))):
+        return ("setitem", st.targets[0].value.id, st.targets[0].slice, st.value)
+    return None
+
+
+def _loop_as_comprehensions(blk, j, loads, stores):
+    """the comprehension assignments that replace the collector loop blk[j] (and the `xs = []` / `d = {}` statements they absorb), or None.
+    A collector is filled by one unconditional statement, or inside one `if` of the loop body: in one branch (a filter) or in both
+    (a conditional element)."""
+    loop = blk[j]
+    if not isinstance(loop, ast.For) or loop.orelse:
+        return None
+    tnames = [x.id for x in ast.walk(loop.target) if isinstance(x, ast.Name)]
+    if not tnames or any(not isinstance(x, (ast.Name, ast.Tuple, ast.List)) for x in ast.walk(loop.target) if not isinstance(x, ast.expr_context)):
+        return None
+    if any(isinstance(x, (ast.Yield, ast.YieldFrom, ast.Await, ast.NamedExpr, ast.Lambda, ast.Break, ast.Continue, ast.Return)) for x in ast.walk(loop)):
+        return None
+    inside = {id(x) for x in ast.walk(loop)}
+    mapping = {}
+    collected = {}  # collector -> (kind, filter test or None, key, element)
+
+    class S(ast.NodeTransformer):
+        def visit_Name(self, node):
+            if isinstance(node.ctx, ast.Load) and node.id in mapping:
+                return _copy(mapping[node.id])
+            return node
+
+    def sub(e):
+        return S().visit(_copy(e))
+
+    def ops_of(stmts):
+        out = {}
+        for st in stmts:
+            op = _collector_op(st)
+            if op is None or op[1] in out:
+                return None
+            out[op[1]] = op
+        return out
+
+    for st in loop.body:
+        op = _collector_op(st)
+        if op is not None:
+            if op[1] in collected:
+                return None
+            collected[op[1]] = (op[0], None, sub(op[2]) if op[0] == "setitem" else None, sub(op[-1]))
+        elif isinstance(st, ast.Assign) and len(st.targets) == 1 and isinstance(st.targets[0], (ast.Name, ast.Tuple)):
+            tg = st.targets[0]
+            names = [tg] if isinstance(tg, ast.Name) else list(tg.elts)
+            if not all(isinstance(x, ast.Name) for x in names):
+                return None
+            val = sub(st.value)
+            for x in names:
+                # a loop-local: stored once in the function, never read outside the loop
+                if x.id in mapping or x.id in tnames or len(stores.get(x.id, [])) != 1 or any(id(l) not in inside for l in loads.get(x.id, [])):
+                    return None
+                if any(isinstance(y, ast.Name) and y.id == x.id for y in ast.walk(st.value)):
+                    return None
+            for i, x in enumerate(names):
+                mapping[x.id] = val if isinstance(tg, ast.Name) else ast.Subscript(value=_copy(val), slice=ast.Constant(value=i), ctx=ast.Load())
+        elif isinstance(st, ast.If):
+            a, b = ops_of(st.body), ops_of(st.orelse)
+            if a is None or b is None or not (a or b):
+                return None
+            test = sub(st.test)
+            for name in list(a) + [n for n in b if n not in a]:
+                if name in collected:
+                    return None
+                oa, ob = a.get(name), b.get(name)
+                kind = (oa or ob)[0]
+                if oa is not None and ob is not None:
+                    if oa[0] != ob[0] or (kind == "setitem" and ast.dump(oa[2]) != ast.dump(ob[2])):
+                        return None
+                    elt = ast.IfExp(test=_copy(test), body=sub(oa[-1]), orelse=sub(ob[-1]))
+                    collected[name] = (kind, None, sub(oa[2]) if kind == "setitem" else None, elt)
+                else:
+                    o = oa or ob
+                    flt = _copy(test) if oa is not None else ast.UnaryOp(op=ast.Not(), operand=_copy(test))
+                    collected[name] = (kind, flt, sub(o[2]) if kind == "setitem" else None, sub(o[-1]))
+        else:
+            return None
+    if not collected:
+        return None
+    for t in tnames:  # the loop variables do not escape
+        if len(stores.get(t, [])) != len([x for x in ast.walk(loop.target) if isinstance(x, ast.Name) and x.id == t]) or any(id(l) not in inside for l in loads.get(t, [])):
+            return None
+    inits, out = [], []
+    for name, (kind, flt, key, elt) in collected.items():
+        init = None
+        for k in range(j - 1, -1, -1):
+            s = blk[k]
+            if isinstance(s, ast.Assign) and len(s.targets) == 1 and isinstance(s.targets[0], ast.Name) and s.targets[0].id == name:
+                empty = (isinstance(s.value, ast.List) and not s.value.elts) if kind == "append" else (isinstance(s.value, ast.Dict) and not s.value.keys)
+                init = s if empty else None
+                break
+            if any(isinstance(x, ast.Name) and x.id == name for x in ast.walk(s)):
+                break
+        if init is None or len(stores.get(name, [])) != 1:
+            return None
+        # inside the loop the collector is only the receiver of its own fill statements
+        n_recv = sum(1 for st in ast.walk(loop) if (_collector_op(st) or (None, None))[1] == name) if True else 0
+        if sum(1 for l in loads.get(name, []) if id(l) in inside) != n_recv:
+            return None
+        if any(isinstance(x, ast.Name) and x.id == name for e in (elt, key, flt) if e is not None for x in ast.walk(e)):
+            return None
+        gen = ast.comprehension(target=_copy(loop.target), iter=_copy(loop.iter), ifs=[flt] if flt is not None else [], is_async=0)
+        comp = ast.ListComp(elt=elt, generators=[gen]) if kind == "append" else ast.DictComp(key=key, value=elt, generators=[gen])
+        new = ast.Assign(targets=[ast.Name(id=name, ctx=ast.Store())], value=comp)
+        ast.copy_location(new, loop)
+        ast.copy_location(comp, loop)
+        ast.fix_missing_locations(new)
+        inits.append(init)
+        out.append(new)
+    return inits, out
+
+
+def fuse_comprehensions(tree):
+    """`xs = [g(t) for t in it]; ys = [f(a, b) for a, b in xs if c(a)]` -> `ys = [f(g0, g1) for t in it if c(g0)]` when xs is assigned once to a
+    single-generator list comprehension whose element matches the consumer's target pattern: the intermediate list disappears from
+    the consumer (deforestation; the producer's element expression is duplicated, which is sound for the pure expressions analysed)"""
+    n = 0
+    for fn in [x for x in ast.walk(tree) if isinstance(x, (ast.FunctionDef, ast.AsyncFunctionDef))]:
+        for _ in range(20):
+            if not _fuse_one(fn):
+                break
+            n += 1
+    return n
+
+
+def _fuse_one(fn):
+    stores, producers = {}, {}
+    mutated = set()
+    for x in ast.walk(fn):
+        if isinstance(x, ast.Name) and isinstance(x.ctx, ast.Store):
+            stores[x.id] = stores.get(x.id, 0) + 1
+        elif isinstance(x, ast.arg):
+            stores[x.arg] = stores.get(x.arg, 0) + 2
+        elif isinstance(x, ast.AugAssign) and isinstance(x.target, ast.Name):
+            stores[x.target.id] = stores.get(x.target.id, 0) + 2
+        elif isinstance(x, ast.Call) and isinstance(x.func, ast.Attribute) and isinstance(x.func.value, ast.Name) and x.func.attr in (
+                "append", "extend", "insert", "pop", "remove", "clear", "sort", "reverse"):
+            mutated.add(x.func.value.id)
+        elif isinstance(x, (ast.Assign, ast.Delete)):
+            for t in x.targets:
+                if isinstance(t, ast.Subscript) and isinstance(t.value, ast.Name):
+                    mutated.add(t.value.id)
+    for st in fn.body:
+        if (isinstance(st, ast.Assign) and len(st.targets) == 1 and isinstance(st.targets[0], ast.Name) and isinstance(st.value, ast.ListComp)
+                and len(st.value.generators) == 1 and not st.value.generators[0].is_async):
+            x = st.targets[0].id
+            if stores.get(x) == 1 and x not in mutated:
+                producers[x] = st
+    if not producers:
+        return False
+    for comp in [x for x in ast.walk(fn) if isinstance(x, (ast.ListComp, ast.GeneratorExp, ast.SetComp, ast.DictComp))]:
+        if len(comp.generators) != 1:
+            continue
+        g = comp.generators[0]
+        if not (isinstance(g.iter, ast.Name) and g.iter.id in producers) or producers[g.iter.id].value is comp:
+            continue
+        prod = producers[g.iter.id].value
+        pg = prod.generators[0]
+        if isinstance(g.target, ast.Name):
+            binding = {g.target.id: prod.elt}
+        elif isinstance(g.target, ast.Tuple) and isinstance(prod.elt, ast.Tuple) and len(g.target.elts) == len(prod.elt.elts) and all(isinstance(t, ast.Name) for t in g.target.elts):
+            binding = {t.id: e for t, e in zip(g.target.elts, prod.elt.elts)}
+        else:
+            continue
+        inner_names = {x.id for x in ast.walk(pg.target) if isinstance(x, ast.Name)}
+        parts = ([comp.key, comp.value] if isinstance(comp, ast.DictComp) else [comp.elt]) + list(g.ifs)
+        free = {x.id for e in parts for x in ast.walk(e) if isinstance(x, ast.Name)} - set(binding)
+        if inner_names & free or any(isinstance(x, (ast.Lambda, ast.ListComp, ast.GeneratorExp, ast.SetComp, ast.DictComp)) for e in parts for x in ast.walk(e)):
+            continue
+
+        class S(ast.NodeTransformer):
+            def visit_Name(self, node):
+                if isinstance(node.ctx, ast.Load) and node.id in binding:
+                    return _copy(binding[node.id])
+                return node
+        if isinstance(comp, ast.DictComp):
+            comp.key, comp.value = S().visit(comp.key), S().visit(comp.value)
+        else:
+            comp.elt = S().visit(comp.elt)
+        g.ifs = [_copy(t) for t in pg.ifs] + [S().visit(t) for t in g.ifs]
+        g.target, g.iter = _copy(pg.target), _copy(pg.iter)
+        ast.fix_missing_locations(fn)
+        # a producer nothing reads any more is dead
+        name = next(k for k, v in producers.items() if v.value is prod)
+        if not any(isinstance(x, ast.Name) and x.id == name and isinstance(x.ctx, ast.Load) for x in ast.walk(fn)):
+            fn.body.remove(producers[name])
+        return True
+    return False
 
 
 # ------------------------------------------------------------------------------------------------
@@ -161,11 +604,16 @@ def _inlinable_helpers(tree):
         if a.vararg or a.kwarg or a.posonlyargs:
             continue
         body = [s for s in st.body if not (isinstance(s, ast.Expr) and isinstance(s.value, ast.Constant))]
-        if not body or not isinstance(body[-1], ast.Return) or body[-1].value is None:
+        if not body:
             continue
-        if not all(isinstance(s, _SIMPLE_STMTS) for s in body[:-1]):
+        # a function helper ends in `return <value>`; a procedure helper (only assertions / stores, no return) is inlined where it is
+        # called as a statement
+        is_proc = not any(isinstance(x, ast.Return) for s in body for x in ast.walk(s))
+        if not is_proc and (not isinstance(body[-1], ast.Return) or body[-1].value is None):
             continue
-        if any(isinstance(x, (ast.FunctionDef, ast.Lambda, ast.Yield, ast.YieldFrom, ast.Await, ast.NamedExpr, ast.Global, ast.Nonlocal) + _NO_INLINE_INSIDE) for s in body for x in ast.walk(s)):
+        if not all(isinstance(s, _SIMPLE_STMTS) for s in (body if is_proc else body[:-1])):
+            continue
+        if any(isinstance(x, (ast.FunctionDef, ast.Lambda, ast.Yield, ast.YieldFrom, ast.Await, ast.NamedExpr, ast.Global, ast.Nonlocal)) for s in body for x in ast.walk(s)):
             continue
         if any(isinstance(x, ast.Call) and isinstance(x.func, ast.Name) and x.func.id == st.name for s in body for x in ast.walk(s)):
             continue  # recursive
@@ -173,27 +621,47 @@ def _inlinable_helpers(tree):
     return out
 
 
-def _bind(fn, call):
-    """parameter -> argument expression, or None when the call cannot be bound statically"""
+def _bind(fn, call, tag=0):
+    """(parameter -> argument expression, prefix statements), or None when the call cannot be bound statically.  One starred
+    positional argument is bound when the helper has no defaults: it covers exactly the parameters nothing else fills, and is
+    unpacked into fresh locals (`f(*e, c)` with `def f(a, b, c)` gives `_a, _b = e`)"""
     a = fn.args
-    params = [p.arg for p in a.args] + [p.arg for p in a.kwonlyargs]
-    if any(isinstance(x, ast.Starred) for x in call.args) or any(k.arg is None for k in call.keywords) or len(call.args) > len(a.args):
+    pos = [p.arg for p in a.args]
+    params = pos + [p.arg for p in a.kwonlyargs]
+    if any(k.arg is None for k in call.keywords):
+        return None
+    stars = [i for i, x in enumerate(call.args) if isinstance(x, ast.Starred)]
+    pre = []
+    args = list(call.args)
+    if stars:
+        if len(stars) > 1 or a.defaults:
+            return None
+        named = [k.arg for k in call.keywords if k.arg in pos]
+        m = len(pos) - (len(args) - 1) - len(named)
+        i = stars[0]
+        covered = pos[i:i + m]
+        if m < 1 or any(p in named for p in covered):
+            return None
+        fresh = [ast.Name(id=f"_inl{tag}_{p}", ctx=ast.Store()) for p in covered]
+        pre.append(ast.Assign(targets=[ast.Tuple(elts=fresh, ctx=ast.Store())], value=args[i].value, lineno=call.lineno))
+        args[i:i + 1] = [ast.Name(id=f.id, ctx=ast.Load()) for f in fresh]
+    if len(args) > len(pos):
         return None
     bound = {}
-    for p, v in zip([p.arg for p in a.args], call.args):
+    for p, v in zip(pos, args):
         bound[p] = v
     for k in call.keywords:
         if k.arg not in params or k.arg in bound:
             return None
         bound[k.arg] = k.value
-    defaults = dict(zip([p.arg for p in a.args][len(a.args) - len(a.defaults):], a.defaults))
+    defaults = dict(zip(pos[len(pos) - len(a.defaults):], a.defaults))
     defaults.update({p.arg: d for p, d in zip(a.kwonlyargs, a.kw_defaults) if d is not None})
     for p in params:
         if p not in bound:
             if p not in defaults:
                 return None
             bound[p] = defaults[p]
-    return bound
+    return bound, pre
 
 
 class _Subst(ast.NodeTransformer):
@@ -223,18 +691,28 @@ def inline_helpers(tree):
     counter = [0]
     total = [0]
 
-    def expand(call):
+    def expand(call, as_statement=False):
         """-> (prefix statements, expression) or None"""
-        fn, body = helpers[call.func.id]
-        bound = _bind(fn, call)
-        if bound is None:
+        fn, _ = helpers[call.func.id]
+        # the helper's body as it is now (calls to other helpers inside it may have been expanded in the meantime)
+        body = [s_ for s_ in fn.body if not (isinstance(s_, ast.Expr) and isinstance(s_.value, ast.Constant))]
+        is_proc = bool(body) and not any(isinstance(x, ast.Return) for s_ in body for x in ast.walk(s_))
+        if is_proc:
+            if not as_statement or not all(isinstance(s_, _SIMPLE_STMTS) for s_ in body):
+                return None
+            body = body + [ast.Return(value=ast.Constant(value=None))]
+        if not body or not isinstance(body[-1], ast.Return) or body[-1].value is None or not all(isinstance(s_, _SIMPLE_STMTS) for s_ in body[:-1]):
             return None
+        res = _bind(fn, call, counter[0] + 1)
+        if res is None:
+            return None
+        bound, star_pre = res
         counter[0] += 1
         tag = counter[0]
         params = set(bound)
         assigned = {t.id for s in body for t in ast.walk(s) if isinstance(t, ast.Name) and isinstance(t.ctx, ast.Store)}
         # a parameter that the helper re-binds becomes a fresh local initialised with the argument
-        pre = []
+        pre = list(star_pre)
         mapping = {}
         def simple(e):
             return isinstance(e, (ast.Name, ast.Constant)) or (isinstance(e, ast.Attribute) and simple(e.value)) or \
@@ -292,7 +770,14 @@ def inline_helpers(tree):
                 if target is not None:
                     break
             if target is not None and not isinstance(st, (ast.For, ast.While, ast.With)) or (target is not None and isinstance(st, (ast.If, ))):
-                res = expand(target)
+                is_stmt = isinstance(st, ast.Expr) and st.value is target
+                res = expand(target, as_statement=is_stmt)
+                if res is not None and is_stmt:
+                    blk[i:i + 1] = res[0]  # a call made for its effect: the helper's statements replace it
+                    total[0] += 1
+                    if total[0] > 500:
+                        return
+                    continue
                 if res is not None:
                     pre, expr = res
 
